@@ -1234,3 +1234,788 @@ Proof.
     exists lc, cc. split; assumption.
   - rewrite (mclaim_none _ _ _ E) in Hx. discriminate Hx.
 Qed.
+
+(* ==================================================================================== *)
+(* 8. on_term_mouse against mouse_spec (one terminal event, handlers do not mutate)      *)
+
+(* term_mouse with its fuel as a parameter *)
+Definition to_source (fuel : nat) (cfg : defects) (claims : Z -> Z) (btn line col : Z)
+  (s : istate) (ty' : Z) : istate :=
+  match r_dsrc (i_root s) with
+  | None => s
+  | Some src =>
+    match (if mem src (i_freed s) then None else f_abs_origin (i_root s) src) with
+    | None => i_faulty s
+    | Some o =>
+      let '(s', r) := handle_mouse fuel cfg claims s src ty' btn (line - fst o) (col - snd o) in
+      drop_ref cfg s' r
+    end
+  end.
+
+Definition start_rel1 (cfg : defects) (rootid : Z) (s' : istate) (src : option Z) : istate :=
+  match src with
+  | Some x => if negb (d_drag_stale cfg) && (x =? rootid) then release s' x else s'
+  | None => s'
+  end.
+Definition start_rel2 (cfg : defects) (rootid : Z) (s' : istate) : istate :=
+  match r_dsrc (i_root s') with
+  | Some old => if d_drag_stale cfg || (old =? rootid) then s' else release s' old
+  | None => s'
+  end.
+Definition start_set (s' : istate) (src : option Z) : istate :=
+  let st' := i_root s' in
+  i_set_root s' (set_drag st' true (r_lbtn st') (r_lline st') (r_lcol st') src).
+Definition end_set (cfg : defects) (rootid : Z) (s'' : istate) : istate :=
+  let st'' := i_root s'' in
+  if d_drag_stale cfg then
+    i_set_root s'' (set_drag st'' false (r_lbtn st'') (r_lline st'') (r_lcol st'') (r_dsrc st''))
+  else
+    let s3 := match r_dsrc st'' with Some src => if src =? rootid then s'' else release s'' src | None => s'' end in
+    let st3 := i_root s3 in
+    i_set_root s3 (set_drag st3 false (r_lbtn st3) (r_lline st3) (r_lcol st3) None).
+
+Definition tm_pre (fuel : nat) (cfg : defects) (claims : Z -> Z) (s : istate) (ty btn line col : Z) : istate :=
+  let rootid := t_id (r_tree (i_root s)) in
+  let st := i_root s in
+  if ty =? 1 then i_set_root s (set_drag st (r_dragging st) btn line col (r_dsrc st))
+  else if (ty =? 2) && negb (r_dragging st) then
+    let '(s', src) := handle_mouse fuel cfg claims s rootid 5 (r_lbtn st) (r_lline st) (r_lcol st) in
+    start_set (start_rel2 cfg rootid (start_rel1 cfg rootid s' src)) src
+  else if (ty =? 3) && r_dragging st then
+    let '(s', r) := handle_mouse fuel cfg claims s rootid 7 btn line col in
+    end_set cfg rootid (to_source fuel cfg claims btn line col (drop_ref cfg s' r) 8)
+  else s.
+
+Definition tm_post (fuel : nat) (cfg : defects) (claims : Z -> Z) (ty btn line col : Z)
+  (s2 : istate) (handled : option Z) : istate :=
+  drop_ref cfg
+    (if (ty =? 2) &&
+        match r_dsrc (i_root s2) with
+        | Some src => negb (opt_is handled (Some src))
+        | None => false
+        end
+     then to_source fuel cfg claims btn line col s2 6 else s2) handled.
+
+Definition term_mouse_f (fuel : nat) (cfg : defects) (claims : Z -> Z) (s : istate) (ty btn line col : Z) : istate :=
+  let '(s2, handled) :=
+    handle_mouse fuel cfg claims (tm_pre fuel cfg claims s ty btn line col)
+                 (t_id (r_tree (i_root s))) ty btn line col in
+  tm_post fuel cfg claims ty btn line col s2 handled.
+
+Lemma term_mouse_f_ifuel cfg claims s ty btn line col :
+  term_mouse_f ifuel cfg claims s ty btn line col = term_mouse cfg claims s ty btn line col.
+Proof.
+  unfold term_mouse_f, term_mouse, tm_pre, tm_post, to_source, start_set, start_rel1, start_rel2, end_set.
+  reflexivity.
+Qed.
+
+Definition ds_of (R : root) : dragst :=
+  mkDrag (r_dragging R) (r_lbtn R) (r_lline R) (r_lcol R) (r_dsrc R).
+
+(* the drag source, if any, is a window of the tree *)
+Definition dsrc_ok (R : root) : Prop :=
+  match r_dsrc R with Some x => In x (t_ids (r_tree R)) | None => True end.
+
+Lemma first_some_found {A B} (f : A -> option B) l c y :
+  In c l -> f c = Some y -> exists y', first_some f l = Some y'.
+Proof.
+  induction l as [|a r IH]; intros Hc Hf; [destruct Hc|]. cbn [first_some].
+  destruct (f a) as [z|] eqn:Ea; [exists z; reflexivity|].
+  destruct Hc as [->|Hc]; [rewrite Hf in Ea; discriminate Ea|]. apply IH; assumption.
+Qed.
+
+Lemma t_path_some id t : In id (t_ids t) -> exists p, t_path id t = Some p.
+Proof.
+  induction t as [i ch IH] using wtree_ind'. intros Hin. rewrite t_path_eq.
+  destruct (w_id i =? id) eqn:E; [eexists; reflexivity|].
+  cbn [t_ids] in Hin. destruct Hin as [Hin|Hin]; [lia|].
+  apply in_flat_map in Hin. destruct Hin as (c & Hc & Hi).
+  rewrite Forall_forall in IH. destruct (IH c Hc Hi) as (p & Hp).
+  destruct (first_some_found (t_path id) ch c p Hc Hp) as (p' & Hp'). rewrite Hp'. eexists; reflexivity.
+Qed.
+
+Lemma t_find_some id t : In id (t_ids t) -> exists x, t_find id t = Some x.
+Proof.
+  induction t as [i ch IH] using wtree_ind'. intros Hin. rewrite t_find_eq.
+  destruct (w_id i =? id) eqn:E; [eexists; reflexivity|].
+  cbn [t_ids] in Hin. destruct Hin as [Hin|Hin]; [lia|].
+  apply in_flat_map in Hin. destruct Hin as (c & Hc & Hi).
+  rewrite Forall_forall in IH. destruct (IH c Hc Hi) as (p & Hp).
+  exact (first_some_found (t_find id) ch c p Hc Hp).
+Qed.
+
+Lemma remove_one_head x H : remove_one x (x :: H) = H.
+Proof. cbn [remove_one]. rewrite Z.eqb_refl. reflexivity. Qed.
+
+Lemma drop_ref_Q R H L r : drop_ref no_defects (Q R (push r H) L) r = Q R H L.
+Proof. destruct r as [x|]; [|reflexivity]. cbn [drop_ref d_drag_stale no_defects push]. rewrite release_Q, remove_one_head. reflexivity. Qed.
+
+Lemma to_source_Q fuel claims R btn line col ty' H L :
+  ids_unique R -> (height (r_tree R) < fuel)%nat -> dsrc_ok R ->
+  to_source fuel no_defects claims btn line col (Q R H L) ty' =
+  Q R H (rev (to_source_spec claims (r_tree R) (r_dsrc R) ty' btn line col) ++ L).
+Proof.
+  intros Hu Hh Hok. unfold to_source, to_source_spec, dsrc_ok in *.
+  change (i_root (Q R H L)) with R. change (i_freed (Q R H L)) with (@nil Z).
+  destruct (r_dsrc R) as [src|]; [|reflexivity].
+  cbn [mem existsb].
+  destruct (t_path_some src _ Hok) as (p & Hp). destruct (t_find_some src _ Hok) as (sb & Hsb).
+  unfold f_abs_origin, tree_origin, forest. cbn [first_some]. rewrite Hp, Hsb.
+  set (o := fold_left _ p (0, 0)).
+  destruct (t_find_sub _ _ _ Hsb) as (Hsub & Hid). subst src.
+  assert (Hs : subl sb (forest R)) by (exists (r_tree R); split; [left; reflexivity|exact Hsub]).
+  assert (Hhs : (height sb < fuel)%nat) by (apply height_sub in Hsub; lia).
+  rewrite (handle_mouse_Q claims R ty' btn Hu fuel sb Hs Hhs).
+  rewrite drop_ref_Q. rewrite mlog_spec. reflexivity.
+Qed.
+
+Definition set_ds (R : root) (d : dragst) : root :=
+  set_drag R (ds_dragging d) (ds_btn d) (ds_line d) (ds_col d) (ds_src d).
+
+Lemma set_ds_id R : set_ds R (ds_of R) = R.
+Proof. destruct R; reflexivity. Qed.
+
+Lemma HMroot fuel claims R R1 ty btn l c H L :
+  ids_unique R -> (height (r_tree R) < fuel)%nat -> forest R1 = forest R ->
+  handle_mouse fuel no_defects claims (Q R1 H L) (t_id (r_tree R)) ty btn l c =
+  (Q R1 (push (mclaim claims ty (mouse_order (r_tree R) l c)) H)
+        (mlog claims ty btn (mouse_order (r_tree R) l c) L),
+   mclaim claims ty (mouse_order (r_tree R) l c)).
+Proof.
+  intros Hu Hh Hf.
+  assert (Ht : r_tree R1 = r_tree R) by (unfold forest in Hf; inversion Hf; reflexivity).
+  assert (Hu1 : ids_unique R1) by (unfold ids_unique, forest_ids; rewrite Hf; exact Hu).
+  assert (Hs : subl (r_tree R) (forest R1)) by (rewrite <- Ht; apply tree_subl).
+  apply (handle_mouse_Q claims R1 ty btn Hu1 fuel (r_tree R) Hs Hh).
+Qed.
+
+(* the drag source named by a START claim is a window of the tree *)
+Lemma mclaim_in_tree claims ty t l c x : mclaim claims ty (mouse_order t l c) = Some x -> In x (t_ids t).
+Proof.
+  intros Hx. rewrite (mclaim_spec claims ty 0) in Hx. apply mouse_phase_claimer in Hx.
+  destruct Hx as (l' & c' & Hi & _). eapply mouse_order_ids. exact Hi.
+Qed.
+
+(* what the repaired on_term_mouse does to the drag fields: as the spec says, except that the
+   source is also forgotten when the drag ends *)
+Definition ds_after (R : root) (ty : Z) (d : dragst) : dragst :=
+  if (ty =? 3) && r_dragging R
+  then mkDrag (ds_dragging d) (ds_btn d) (ds_line d) (ds_col d) None else d.
+
+(* mouse_spec = what happens before the ordinary delivery, then the ordinary delivery and
+   the OUTSIDE that may follow it *)
+Definition spec_pre (claims : Z -> Z) (t : wtree) (ds : dragst) (ty btn line col : Z) : list iev * dragst :=
+  if ty =? 1 then ([], mkDrag (ds_dragging ds) btn line col (ds_src ds))
+  else if (ty =? 2) && negb (ds_dragging ds) then
+    (fst (mouse_phase claims (mouse_order t (ds_line ds) (ds_col ds)) 5 (ds_btn ds)),
+     mkDrag true (ds_btn ds) (ds_line ds) (ds_col ds)
+            (snd (mouse_phase claims (mouse_order t (ds_line ds) (ds_col ds)) 5 (ds_btn ds))))
+  else if (ty =? 3) && ds_dragging ds then
+    (fst (mouse_phase claims (mouse_order t line col) 7 btn) ++
+     to_source_spec claims t (ds_src ds) 8 btn line col,
+     mkDrag false (ds_btn ds) (ds_line ds) (ds_col ds) (ds_src ds))
+  else ([], ds).
+
+Definition spec_post (claims : Z -> Z) (t : wtree) (src : option Z) (ty btn line col : Z) : list iev :=
+  fst (mouse_phase claims (mouse_order t line col) ty btn) ++
+  (if ty =? 2 then
+     match src with
+     | Some s => if opt_is (snd (mouse_phase claims (mouse_order t line col) ty btn)) (Some s) then []
+                 else to_source_spec claims t src 6 btn line col
+     | None => []
+     end
+   else []).
+
+Lemma mouse_spec_split claims t ds ty btn line col :
+  mouse_spec claims t ds ty btn line col =
+  (fst (spec_pre claims t ds ty btn line col) ++
+   spec_post claims t (ds_src (snd (spec_pre claims t ds ty btn line col))) ty btn line col,
+   snd (spec_pre claims t ds ty btn line col)).
+Proof.
+  unfold mouse_spec, spec_pre, spec_post.
+  destruct (ty =? 1) eqn:E1.
+  { assert (ty = 1) by lia. subst ty. cbn [Z.eqb Pos.eqb fst snd app]. rewrite app_nil_r. reflexivity. }
+  destruct ((ty =? 2) && negb (ds_dragging ds)) eqn:E2.
+  { assert (ty = 2) by lia. subst ty. cbn [Z.eqb Pos.eqb fst snd ds_src].
+    destruct (mouse_phase claims (mouse_order t (ds_line ds) (ds_col ds)) 5 (ds_btn ds)) as [e1 src].
+    destruct (mouse_phase claims (mouse_order t line col) 2 btn) as [e2 h]. cbn [fst snd].
+    destruct src; reflexivity. }
+  destruct (ty =? 2) eqn:E3.
+  { assert (ty = 2) by lia. subst ty. cbn [Z.eqb Pos.eqb andb fst snd app].
+    destruct (mouse_phase claims (mouse_order t line col) 2 btn) as [e2 h]. cbn [fst snd].
+    destruct (ds_src ds); reflexivity. }
+  destruct ((ty =? 3) && ds_dragging ds) eqn:E4; cbn [fst snd app ds_src].
+  - assert (ty = 3) by lia. subst ty. rewrite app_nil_r, <- app_assoc. reflexivity.
+  - rewrite app_nil_r. reflexivity.
+Qed.
+
+Definition isQ (R : root) (L : list iev) (s : istate) : Prop := exists H', s = Q R H' L.
+
+Lemma isQ_release R L s x : isQ R L s -> isQ R L (release s x).
+Proof. intros (H' & ->). rewrite release_Q. eexists; reflexivity. Qed.
+
+Lemma isQ_Q R H L : isQ R L (Q R H L).
+Proof. eexists; reflexivity. Qed.
+
+Lemma tm_pre_Q fuel claims R ty btn line col H L :
+  ids_unique R -> (height (r_tree R) < fuel)%nat -> dsrc_ok R ->
+  isQ (set_ds R (ds_after R ty (snd (spec_pre claims (r_tree R) (ds_of R) ty btn line col))))
+      (rev (fst (spec_pre claims (r_tree R) (ds_of R) ty btn line col)) ++ L)
+      (tm_pre fuel no_defects claims (Q R H L) ty btn line col).
+Proof.
+  intros Hu Hh Hok. unfold tm_pre, spec_pre, ds_after. change (i_root (Q R H L)) with R. cbv zeta.
+  cbn [ds_of ds_dragging ds_btn ds_line ds_col ds_src].
+  destruct (ty =? 1) eqn:E1.
+  { assert (ty = 1) by lia. subst ty. cbn [Z.eqb Pos.eqb andb fst snd rev app]. apply isQ_Q. }
+  destruct ((ty =? 2) && negb (r_dragging R)) eqn:E2.
+  { assert (ty = 2) by lia. subst ty. cbn [Z.eqb Pos.eqb andb fst snd].
+    rewrite HMroot by (assumption || reflexivity). rewrite <- mlog_spec, <- mclaim_spec.
+    set (src := mclaim claims 5 _). set (L5 := mlog claims 5 _ _ L).
+    assert (HA : isQ R L5 (start_rel1 no_defects (t_id (r_tree R)) (Q R (push src H) L5) src)).
+    { unfold start_rel1. destruct src as [x|]; [|apply isQ_Q].
+      destruct (negb (d_drag_stale no_defects) && (x =? t_id (r_tree R))); [apply isQ_release|]; apply isQ_Q. }
+    destruct HA as (HA & ->).
+    assert (HB : isQ R L5 (start_rel2 no_defects (t_id (r_tree R)) (Q R HA L5))).
+    { unfold start_rel2. change (i_root (Q R HA L5)) with R. destruct (r_dsrc R) as [old|]; [|apply isQ_Q].
+      destruct (d_drag_stale no_defects || (old =? t_id (r_tree R))); [|apply isQ_release]; apply isQ_Q. }
+    destruct HB as (HB & ->).
+    unfold start_set. cbv zeta. change (i_root (Q R HB L5)) with R. apply isQ_Q. }
+  destruct ((ty =? 3) && r_dragging R) eqn:E3.
+  { assert (ty = 3) by lia. subst ty. cbn [fst snd].
+    rewrite HMroot by (assumption || reflexivity). rewrite drop_ref_Q.
+    rewrite to_source_Q by assumption.
+    rewrite rev_app_distr, <- app_assoc, <- mlog_spec.
+    set (L8 := rev _ ++ mlog claims 7 _ _ L).
+    unfold end_set. cbv zeta. change (i_root (Q R H L8)) with R.
+    cbn [d_drag_stale no_defects].
+    assert (HA : isQ R L8 (match r_dsrc R with
+                           | Some src => if src =? t_id (r_tree R) then Q R H L8 else release (Q R H L8) src
+                           | None => Q R H L8 end)).
+    { destruct (r_dsrc R) as [src|]; [|apply isQ_Q].
+      destruct (src =? t_id (r_tree R)); [|apply isQ_release]; apply isQ_Q. }
+    destruct HA as (HA & ->). change (i_root (Q R HA L8)) with R. apply isQ_Q. }
+  cbn [fst snd rev app]. rewrite set_ds_id. apply isQ_Q.
+Qed.
+
+Lemma tm_post_Q fuel claims R1 ty btn line col H L :
+  ids_unique R1 -> (height (r_tree R1) < fuel)%nat -> dsrc_ok R1 ->
+  (let '(s2, handled) := handle_mouse fuel no_defects claims (Q R1 H L) (t_id (r_tree R1)) ty btn line col in
+   tm_post fuel no_defects claims ty btn line col s2 handled) =
+  Q R1 H (rev (spec_post claims (r_tree R1) (r_dsrc R1) ty btn line col) ++ L).
+Proof.
+  intros Hu Hh Hok. rewrite HMroot by (assumption || reflexivity).
+  unfold tm_post, spec_post. rewrite <- !mclaim_spec.
+  set (h := mclaim claims ty _). rewrite rev_app_distr, <- app_assoc, <- mlog_spec.
+  set (L2 := mlog claims ty btn _ L).
+  change (i_root (Q R1 (push h H) L2)) with R1.
+  destruct (ty =? 2) eqn:E2; cbn [andb]; [|apply drop_ref_Q].
+  destruct (r_dsrc R1) as [src|] eqn:Es; [|apply drop_ref_Q].
+  destruct (opt_is h (Some src)); cbn [negb]; [apply drop_ref_Q|].
+  rewrite to_source_Q by assumption. rewrite Es. apply drop_ref_Q.
+Qed.
+
+(* C14, one terminal mouse event against the spec. *)
+Theorem term_mouse_Q fuel claims R ty btn line col H L :
+  ids_unique R -> (height (r_tree R) < fuel)%nat -> dsrc_ok R ->
+  isQ (set_ds R (ds_after R ty (snd (mouse_spec claims (r_tree R) (ds_of R) ty btn line col))))
+      (rev (fst (mouse_spec claims (r_tree R) (ds_of R) ty btn line col)) ++ L)
+      (term_mouse_f fuel no_defects claims (Q R H L) ty btn line col).
+Proof.
+  intros Hu Hh Hok. unfold term_mouse_f. change (i_root (Q R H L)) with R.
+  destruct (tm_pre_Q fuel claims R ty btn line col H L Hu Hh Hok) as (H1 & Hpre). rewrite Hpre.
+  rewrite mouse_spec_split. cbn [fst snd].
+  set (d := snd (spec_pre claims (r_tree R) (ds_of R) ty btn line col)) in *.
+  set (R1 := set_ds R (ds_after R ty d)) in *.
+  assert (Ht : r_tree R1 = r_tree R) by reflexivity.
+  assert (Hu1 : ids_unique R1) by exact Hu.
+  assert (Hok1 : dsrc_ok R1).
+  { unfold dsrc_ok. rewrite Ht. subst R1 d. unfold set_ds, ds_after, spec_pre.
+    cbn [ds_of ds_dragging ds_btn ds_line ds_col ds_src].
+    destruct (ty =? 1); [cbn [andb snd ds_src set_drag r_dsrc]|].
+    { destruct ((ty =? 3) && r_dragging R); cbn [ds_src set_drag r_dsrc]; [exact I|exact Hok]. }
+    destruct ((ty =? 2) && negb (r_dragging R)) eqn:E2.
+    { assert (Hn3 : (ty =? 3) = false) by lia. rewrite Hn3. cbn [andb snd ds_src set_drag r_dsrc].
+      rewrite <- mclaim_spec. destruct (mclaim claims 5 _) as [x|] eqn:Ex; [|exact I].
+      eapply mclaim_in_tree. exact Ex. }
+    destruct ((ty =? 3) && r_dragging R); cbn [snd ds_src set_drag r_dsrc]; [exact I|exact Hok]. }
+  rewrite <- Ht at 1.
+  rewrite (tm_post_Q fuel claims R1 ty btn line col H1 _ Hu1 Hh Hok1).
+  rewrite rev_app_distr, <- app_assoc. rewrite Ht.
+  assert (Hsrc : spec_post claims (r_tree R) (r_dsrc R1) ty btn line col =
+                 spec_post claims (r_tree R) (ds_src d) ty btn line col).
+  { subst R1. unfold set_ds, ds_after. destruct ((ty =? 3) && r_dragging R) eqn:E3; [|reflexivity].
+    unfold spec_post. assert (Hn2 : (ty =? 2) = false) by lia. rewrite Hn2. reflexivity. }
+  rewrite Hsrc. apply isQ_Q.
+Qed.
+
+Lemma ds_of_set_ds R d : ds_of (set_ds R d) = d.
+Proof. destruct d; reflexivity. Qed.
+
+Lemma dsrc_ok_after claims R ty btn line col :
+  dsrc_ok R ->
+  dsrc_ok (set_ds R (ds_after R ty (snd (mouse_spec claims (r_tree R) (ds_of R) ty btn line col)))).
+Proof.
+  intros Hok. unfold dsrc_ok. change (r_tree (set_ds R _)) with (r_tree R).
+  rewrite mouse_spec_split. cbn [snd]. unfold set_ds, ds_after, spec_pre.
+  cbn [ds_of ds_dragging ds_btn ds_line ds_col ds_src].
+  destruct (ty =? 1); [cbn [andb snd ds_src set_drag r_dsrc]|].
+  { destruct ((ty =? 3) && r_dragging R); cbn [ds_src set_drag r_dsrc]; [exact I|exact Hok]. }
+  destruct ((ty =? 2) && negb (r_dragging R)) eqn:E2.
+  { assert (Hn3 : (ty =? 3) = false) by lia. rewrite Hn3. cbn [andb snd ds_src set_drag r_dsrc].
+    rewrite <- mclaim_spec. destruct (mclaim claims 5 _) as [x|] eqn:Ex; [|exact I].
+    eapply mclaim_in_tree. exact Ex. }
+  destruct ((ty =? 3) && r_dragging R); cbn [snd ds_src set_drag r_dsrc]; [exact I|exact Hok].
+Qed.
+
+(* C14, one terminal mouse event: with handlers that do not change the tree, on_term_mouse
+   delivers exactly the events of [mouse_spec], and its drag bookkeeping is the one of
+   [mouse_spec] -- except that the repaired code also forgets the drag source when the drag
+   ends (see [ds_after]; the spec never reads the source while no drag is on, [mouse_spec_equiv]). *)
+Theorem C14_term_mouse_f fuel claims s ty btn line col :
+  quiet s -> ids_unique (i_root s) -> (height (r_tree (i_root s)) < fuel)%nat -> dsrc_ok (i_root s) ->
+  let R := i_root s in
+  let MS := mouse_spec claims (r_tree R) (ds_of R) ty btn line col in
+  let s' := term_mouse_f fuel no_defects claims s ty btn line col in
+  i_log s' = rev (fst MS) ++ i_log s /\
+  i_root s' = set_ds R (ds_after R ty (snd MS)) /\
+  ds_of (i_root s') = ds_after R ty (snd MS) /\
+  r_tree (i_root s') = r_tree R /\ r_orphans (i_root s') = r_orphans R /\
+  i_fault s' = false /\ quiet s' /\ dsrc_ok (i_root s').
+Proof.
+  intros Hq Hu Hh Hok. cbv zeta.
+  destruct (term_mouse_Q fuel claims (i_root s) ty btn line col (i_holds s) (i_log s) Hu Hh Hok) as (H' & Heq).
+  rewrite <- (quiet_Q s Hq) in Heq. rewrite Heq.
+  cbn [Q i_log i_root i_fault].
+  split; [reflexivity|]. split; [reflexivity|]. split; [apply ds_of_set_ds|].
+  split; [reflexivity|]. split; [reflexivity|]. split; [reflexivity|]. split; [apply Q_quiet|].
+  apply dsrc_ok_after. exact Hok.
+Qed.
+
+Corollary C14_term_mouse claims s ty btn line col :
+  quiet s -> ids_unique (i_root s) -> (height (r_tree (i_root s)) < ifuel)%nat -> dsrc_ok (i_root s) ->
+  let R := i_root s in
+  let MS := mouse_spec claims (r_tree R) (ds_of R) ty btn line col in
+  let s' := term_mouse no_defects claims s ty btn line col in
+  i_log s' = rev (fst MS) ++ i_log s /\
+  i_root s' = set_ds R (ds_after R ty (snd MS)) /\
+  ds_of (i_root s') = ds_after R ty (snd MS) /\
+  r_tree (i_root s') = r_tree R /\ r_orphans (i_root s') = r_orphans R /\
+  i_fault s' = false /\ quiet s' /\ dsrc_ok (i_root s').
+Proof.
+  intros Hq Hu Hh Hok. cbv zeta. rewrite <- term_mouse_f_ifuel.
+  exact (C14_term_mouse_f ifuel claims s ty btn line col Hq Hu Hh Hok).
+Qed.
+
+(* ==================================================================================== *)
+(* 9. The drag bracket rules, on the spec                                                *)
+
+Lemma uc_fst_incl {A} (P : A -> bool) l x : In x (fst (until_claim P l)) -> In x l.
+Proof.
+  induction l as [|a l IH]; [intros []|]. rewrite uc_cons.
+  destruct (P a); cbn [fst]; intros [Hx|Hx]; try (left; exact Hx); [destruct Hx|right; apply IH; exact Hx].
+Qed.
+
+(* every delivery of a phase has the type and button of the phase, to a window of the route,
+   at the position the route gives *)
+Lemma mouse_phase_in claims route ty btn e :
+  In e (fst (mouse_phase claims route ty btn)) ->
+  exists w l c, e = IMouse w ty btn l c /\ In (w, l, c) route.
+Proof.
+  rewrite mouse_phase_eq. cbn [fst]. intros Hin. apply in_map_iff in Hin.
+  destruct Hin as ([[w l] c] & He & Hi). exists w, l, c. split; [symmetry; exact He|].
+  eapply uc_fst_incl. exact Hi.
+Qed.
+
+Lemma to_source_in claims t src ty btn line col e :
+  In e (to_source_spec claims t src ty btn line col) ->
+  exists s sb o w l c, src = Some s /\ t_find s t = Some sb /\ tree_origin t s = Some o /\
+    e = IMouse w ty btn l c /\ In (w, l, c) (mouse_order sb (line - fst o) (col - snd o)).
+Proof.
+  unfold to_source_spec. destruct src as [s|]; [|intros []].
+  destruct (t_find s t) as [sb|] eqn:Ef; [|intros []]. destruct (tree_origin t s) as [o|] eqn:Eo; [|intros []].
+  intros Hin. apply mouse_phase_in in Hin. destruct Hin as (w & l & c & He & Hi).
+  exists s, sb, o, w, l, c. split; [reflexivity|]. split; [exact Ef|]. split; [exact Eo|]. split; [exact He|exact Hi].
+Qed.
+
+Lemma mouse_phase_ty claims route ty btn e :
+  In e (fst (mouse_phase claims route ty btn)) -> ev_bit e = ty /\ ev_class e = 1.
+Proof. intros Hin. apply mouse_phase_in in Hin. destruct Hin as (w & l & c & -> & _). split; reflexivity. Qed.
+
+Lemma to_source_ty claims t src ty btn line col e :
+  In e (to_source_spec claims t src ty btn line col) -> ev_bit e = ty /\ ev_class e = 1.
+Proof.
+  intros Hin. apply to_source_in in Hin.
+  destruct Hin as (s & sb & o & w & l & c & _ & _ & _ & -> & _). split; reflexivity.
+Qed.
+
+Definition raw_ty (ty : Z) : Prop := 1 <= ty <= 4.
+
+(* START is only sent by a DRAG event while no drag is on, with the button remembered from the
+   press, along the route of the remembered press position *)
+Lemma spec_start claims t ds ty btn line col w b l c :
+  raw_ty ty -> In (IMouse w 5 b l c) (fst (mouse_spec claims t ds ty btn line col)) ->
+  ty = 2 /\ ds_dragging ds = false /\ b = ds_btn ds /\
+  In (w, l, c) (mouse_order t (ds_line ds) (ds_col ds)).
+Proof.
+  unfold raw_ty. intros Hraw. rewrite mouse_spec_split. cbn [fst]. unfold spec_pre, spec_post.
+  intros Hin. apply in_app_or in Hin. destruct Hin as [Hin|Hin].
+  - destruct (ty =? 1); [destruct Hin|].
+    destruct ((ty =? 2) && negb (ds_dragging ds)) eqn:E2.
+    + cbn [fst] in Hin. apply mouse_phase_in in Hin. destruct Hin as (w' & l' & c' & He & Hi).
+      inversion He; subst. repeat split; try lia; try assumption.
+    + destruct ((ty =? 3) && ds_dragging ds); [|destruct Hin]. cbn [fst] in Hin.
+      apply in_app_or in Hin. destruct Hin as [Hin|Hin].
+      * apply mouse_phase_ty in Hin. cbn [ev_bit] in Hin. lia.
+      * apply to_source_ty in Hin. cbn [ev_bit] in Hin. lia.
+  - apply in_app_or in Hin. destruct Hin as [Hin|Hin].
+    + apply mouse_phase_ty in Hin. cbn [ev_bit] in Hin. lia.
+    + destruct (ty =? 2); [|destruct Hin]. destruct (ds_src (snd _)); [|destruct Hin].
+      destruct (opt_is _ _); [destruct Hin|]. apply to_source_ty in Hin. cbn [ev_bit] in Hin. lia.
+Qed.
+
+(* OUTSIDE is only sent by a DRAG event, with a drag on afterwards and a drag source, to the
+   subtree of the source (at the position relative to the source), and only when the source
+   did not take the DRAG itself *)
+Lemma spec_outside claims t ds ty btn line col w b l c :
+  raw_ty ty -> In (IMouse w 6 b l c) (fst (mouse_spec claims t ds ty btn line col)) ->
+  ty = 2 /\ b = btn /\ ds_dragging (snd (mouse_spec claims t ds ty btn line col)) = true /\
+  exists src sb o,
+    ds_src (snd (mouse_spec claims t ds ty btn line col)) = Some src /\
+    t_find src t = Some sb /\ tree_origin t src = Some o /\
+    In (w, l, c) (mouse_order sb (line - fst o) (col - snd o)) /\
+    snd (mouse_phase claims (mouse_order t line col) 2 btn) <> Some src.
+Proof.
+  unfold raw_ty. intros Hraw. rewrite mouse_spec_split. cbn [fst snd]. unfold spec_post.
+  intros Hin. apply in_app_or in Hin. destruct Hin as [Hin|Hin].
+  - exfalso. unfold spec_pre in Hin. destruct (ty =? 1); [destruct Hin|].
+    destruct ((ty =? 2) && negb (ds_dragging ds)).
+    + cbn [fst] in Hin. apply mouse_phase_ty in Hin. cbn [ev_bit] in Hin. lia.
+    + destruct ((ty =? 3) && ds_dragging ds); [|destruct Hin]. cbn [fst] in Hin.
+      apply in_app_or in Hin. destruct Hin as [Hin|Hin].
+      * apply mouse_phase_ty in Hin. cbn [ev_bit] in Hin. lia.
+      * apply to_source_ty in Hin. cbn [ev_bit] in Hin. lia.
+  - apply in_app_or in Hin. destruct Hin as [Hin|Hin].
+    { apply mouse_phase_ty in Hin. cbn [ev_bit] in Hin. lia. }
+    destruct (ty =? 2) eqn:E2; [|destruct Hin]. assert (ty = 2) by lia. subst ty.
+    destruct (ds_src (snd (spec_pre claims t ds 2 btn line col))) as [s|] eqn:Es; [|destruct Hin].
+    destruct (opt_is (snd (mouse_phase claims (mouse_order t line col) 2 btn)) (Some s)) eqn:Eo; [destruct Hin|].
+    apply to_source_in in Hin. destruct Hin as (s' & sb & o & w' & l' & c' & Hs & Hf & Ho & He & Hi).
+    inversion Hs; subst s'. inversion He; subst.
+    split; [reflexivity|]. split; [reflexivity|]. split.
+    { unfold spec_pre. cbn [Z.eqb Pos.eqb andb]. destruct (ds_dragging ds) eqn:Ed; cbn [negb snd ds_dragging]; [exact Ed|reflexivity]. }
+    exists s, sb, o. repeat split; try assumption.
+    intro Hc. rewrite Hc in Eo. cbn [opt_is] in Eo. rewrite Z.eqb_refl in Eo. discriminate Eo.
+Qed.
+
+(* a RELEASE while a drag is on: DROPs where it happens, then STOPs to the source subtree,
+   then the RELEASEs; and the drag is over *)
+Lemma spec_release claims t ds btn line col :
+  ds_dragging ds = true ->
+  let e7 := fst (mouse_phase claims (mouse_order t line col) 7 btn) in
+  let e8 := to_source_spec claims t (ds_src ds) 8 btn line col in
+  let e3 := fst (mouse_phase claims (mouse_order t line col) 3 btn) in
+  fst (mouse_spec claims t ds 3 btn line col) = e7 ++ e8 ++ e3 /\
+  Forall (fun e => ev_bit e = 7) e7 /\
+  Forall (fun e => ev_bit e = 8 /\
+            exists s sb, ds_src ds = Some s /\ t_find s t = Some sb /\ In (iev_win e) (t_ids sb)) e8 /\
+  Forall (fun e => ev_bit e = 3) e3 /\
+  ds_dragging (snd (mouse_spec claims t ds 3 btn line col)) = false.
+Proof.
+  intros Hd. cbv zeta. unfold mouse_spec. rewrite Hd. cbn [Z.eqb Pos.eqb andb negb fst snd ds_dragging].
+  split; [reflexivity|]. split.
+  { apply Forall_forall. intros e He. apply mouse_phase_ty in He. apply He. }
+  split.
+  { apply Forall_forall. intros e He. apply to_source_in in He.
+    destruct He as (s & sb & o & w & l & c & Hs & Hf & Ho & -> & Hi). split; [reflexivity|].
+    exists s, sb. split; [exact Hs|]. split; [exact Hf|]. cbn [iev_win]. eapply mouse_order_ids. exact Hi. }
+  split; [|reflexivity].
+  apply Forall_forall. intros e He. apply mouse_phase_ty in He. apply He.
+Qed.
+
+(* ---- positions are relative to the receiving window ---- *)
+Definition off_step (acc : Z * Z) (w : wtree) : Z * Z :=
+  (fst acc + top (w_rect (t_info w)), snd acc + left (w_rect (t_info w))).
+
+Lemma fold_off p : forall a b,
+  fold_left off_step p (a, b) = (a + fst (fold_left off_step p (0, 0)), b + snd (fold_left off_step p (0, 0))).
+Proof.
+  induction p as [|x p IH]; intros a b; cbn [fold_left].
+  - cbn [fst snd]. f_equal; lia.
+  - unfold off_step at 2 4 6. cbn [fst snd]. rewrite (IH (a + _) (b + _)), (IH (0 + _) (0 + _)).
+    cbn [fst snd]. f_equal; lia.
+Qed.
+
+Lemma tree_origin_eq t id :
+  tree_origin t id = match t_path id t with Some p => Some (fold_left off_step p (0, 0)) | None => None end.
+Proof. reflexivity. Qed.
+
+Lemma path_step w t c p :
+  NoDup (t_ids t) -> In c (t_kids t) -> t_path w c = Some p -> t_path w t = Some (t :: p).
+Proof.
+  destruct t as [i ch]. cbn [t_kids]. intros Hnd Hc Hp.
+  apply NoDup_kids in Hnd. cbn [t_kids] in Hnd. destruct Hnd as (Hnd & Hni).
+  assert (Hw : In w (t_ids c)) by (eapply t_path_in; exact Hp).
+  rewrite t_path_eq. destruct (w_id i =? w) eqn:E.
+  - exfalso. apply Hni. apply in_flat_map. exists c. split; [exact Hc|].
+    unfold t_id. cbn [t_info]. replace (w_id i) with w by lia. exact Hw.
+  - rewrite (first_some_pick (t_path w) w ch c p); try assumption; [reflexivity|].
+    intros c' _ Hn. apply t_path_none. exact Hn.
+Qed.
+
+(* a window on the route of (line, col) is offered the event at (line, col) minus its own
+   origin within t (t's own offset counted on both sides) *)
+Lemma mouse_order_relative t : forall line col w l c,
+  NoDup (t_ids t) -> In (w, l, c) (mouse_order t line col) ->
+  exists o, tree_origin t w = Some o /\
+    l + fst o = line + top (w_rect (t_info t)) /\ c + snd o = col + left (w_rect (t_info t)).
+Proof.
+  induction t as [i ch IH] using wtree_ind'. intros line col w l c Hnd Hin.
+  apply mouse_order_in in Hin. destruct Hin as (_ & [He|(k & Hk & Hw)]).
+  - inversion He; subst. rewrite tree_origin_eq, t_path_eq. unfold t_id. cbn [t_info]. rewrite Z.eqb_refl.
+    eexists. split; [reflexivity|]. cbn [fold_left off_step fst snd t_info]. lia.
+  - cbn [t_kids] in Hk. rewrite Forall_forall in IH.
+    assert (Hndc : NoDup (t_ids k)).
+    { apply NoDup_kids in Hnd. destruct Hnd as (Hnd & _). eapply NoDup_flat_in; eassumption. }
+    destruct (IH k Hk _ _ _ _ _ Hndc Hw) as (o & Ho & Hl & Hc).
+    rewrite tree_origin_eq in Ho. destruct (t_path w k) as [p|] eqn:Ep; [|discriminate Ho].
+    inversion Ho; subst o. clear Ho.
+    rewrite tree_origin_eq, (path_step w (Node i ch) k p Hnd Hk Ep).
+    eexists. split; [reflexivity|]. cbn [fold_left]. unfold off_step at 2 4. cbn [fst snd t_info].
+    rewrite fold_off. cbn [fst snd]. lia.
+Qed.
+
+(* ---- sequences of raw terminal events ---- *)
+Definition rawev := (Z * Z * Z * Z)%type.      (* ty, btn, line, col *)
+
+Fixpoint run_mouse (claims : Z -> Z) (t : wtree) (evs : list rawev) (ds : dragst) : list (list iev) :=
+  match evs with
+  | [] => []
+  | (ty, btn, line, col) :: r =>
+    fst (mouse_spec claims t ds ty btn line col) ::
+    run_mouse claims t r (snd (mouse_spec claims t ds ty btn line col))
+  end.
+
+Fixpoint run_ds (claims : Z -> Z) (t : wtree) (evs : list rawev) (ds : dragst) : dragst :=
+  match evs with
+  | [] => ds
+  | (ty, btn, line, col) :: r => run_ds claims t r (snd (mouse_spec claims t ds ty btn line col))
+  end.
+
+Lemma run_ds_app claims t pre post ds :
+  run_ds claims t (pre ++ post) ds = run_ds claims t post (run_ds claims t pre ds).
+Proof.
+  revert ds. induction pre as [|[[[ty btn] line] col] pre IH]; intros ds; [reflexivity|].
+  cbn [app run_ds]. apply IH.
+Qed.
+
+Lemma run_mouse_app claims t pre ty btn line col post ds :
+  run_mouse claims t (pre ++ (ty, btn, line, col) :: post) ds =
+  run_mouse claims t pre ds ++
+  fst (mouse_spec claims t (run_ds claims t pre ds) ty btn line col) ::
+  run_mouse claims t post (run_ds claims t (pre ++ [(ty, btn, line, col)]) ds).
+Proof.
+  revert ds. induction pre as [|[[[ty' btn'] line'] col'] pre IH]; intros ds; [reflexivity|].
+  cbn [app run_mouse run_ds]. rewrite IH. reflexivity.
+Qed.
+
+(* the most recent PRESS *)
+Fixpoint last_press (evs : list rawev) (d : Z * Z * Z) : Z * Z * Z :=
+  match evs with
+  | [] => d
+  | (ty, b, l, c) :: r => last_press r (if ty =? 1 then (b, l, c) else d)
+  end.
+
+Definition press_of (ds : dragst) : Z * Z * Z := (ds_btn ds, ds_line ds, ds_col ds).
+
+Lemma press_step claims t ds ty btn line col :
+  press_of (snd (mouse_spec claims t ds ty btn line col)) =
+  if ty =? 1 then (btn, line, col) else press_of ds.
+Proof.
+  rewrite mouse_spec_split. cbn [snd]. unfold spec_pre.
+  destruct (ty =? 1); [reflexivity|].
+  destruct ((ty =? 2) && negb (ds_dragging ds)); [reflexivity|].
+  destruct ((ty =? 3) && ds_dragging ds); reflexivity.
+Qed.
+
+Lemma run_ds_press claims t evs : forall ds,
+  press_of (run_ds claims t evs ds) = last_press evs (press_of ds).
+Proof.
+  induction evs as [|[[[ty btn] line] col] evs IH]; intros ds; [reflexivity|].
+  cbn [run_ds last_press]. rewrite IH, press_step. reflexivity.
+Qed.
+
+(* while a drag is on, the source (if any) is a window of the tree that claimed a START *)
+Definition src_inv (claims : Z -> Z) (t : wtree) (d : dragst) : Prop :=
+  ds_dragging d = true -> forall x, ds_src d = Some x -> Z.testbit (claims x) 5 = true /\ In x (t_ids t).
+
+Lemma src_inv_step claims t ds ty btn line col :
+  src_inv claims t ds -> src_inv claims t (snd (mouse_spec claims t ds ty btn line col)).
+Proof.
+  intros Hinv. rewrite mouse_spec_split. cbn [snd]. unfold spec_pre.
+  destruct (ty =? 1); [exact Hinv|].
+  destruct ((ty =? 2) && negb (ds_dragging ds)).
+  { intros _ x Hx. cbn [ds_src] in Hx. apply mouse_phase_claimer in Hx.
+    destruct Hx as (l & c & Hi & Hc). split; [exact Hc|]. eapply mouse_order_ids. exact Hi. }
+  destruct ((ty =? 3) && ds_dragging ds); [|exact Hinv].
+  intros Hd. discriminate Hd.
+Qed.
+
+Lemma run_ds_src_inv claims t evs : forall ds, src_inv claims t ds -> src_inv claims t (run_ds claims t evs ds).
+Proof.
+  induction evs as [|[[[ty btn] line] col] evs IH]; intros ds Hinv; [exact Hinv|].
+  cbn [run_ds]. apply IH. apply src_inv_step. exact Hinv.
+Qed.
+
+Lemma src_inv_init claims t : src_inv claims t drag_init.
+Proof. intros Hd. discriminate Hd. Qed.
+
+(* C14, the drag bracket rules over every sequence of raw terminal events [pre] followed by
+   one more event (ty, btn, line, col), starting from the initial drag state. *)
+Theorem C14_drag claims t pre ty btn line col :
+  NoDup (t_ids t) -> raw_ty ty ->
+  let d := run_ds claims t pre drag_init in
+  let e := fst (mouse_spec claims t d ty btn line col) in
+  let d' := snd (mouse_spec claims t d ty btn line col) in
+  (* e is the next element of the run *)
+  (forall post, run_mouse claims t (pre ++ (ty, btn, line, col) :: post) drag_init =
+                run_mouse claims t pre drag_init ++ e :: run_mouse claims t post d') /\
+  (* START: only on a DRAG while no drag is on; button and absolute position of the most
+     recent PRESS (0,0,0 if there was none) *)
+  (forall w b l c, In (IMouse w 5 b l c) e ->
+     ty = 2 /\ ds_dragging d = false /\
+     exists o, tree_origin t w = Some o /\
+       (b, l + fst o - top (w_rect (t_info t)), c + snd o - left (w_rect (t_info t))) =
+       last_press pre (0, 0, 0)) /\
+  (* OUTSIDE: only on a DRAG, with a drag on and a source that claimed a START and did not take
+     this DRAG; delivered inside the source's subtree *)
+  (forall w b l c, In (IMouse w 6 b l c) e ->
+     ty = 2 /\ b = btn /\ ds_dragging d' = true /\
+     exists src sb, ds_src d' = Some src /\ Z.testbit (claims src) 5 = true /\
+       t_find src t = Some sb /\ In w (t_ids sb) /\
+       snd (mouse_phase claims (mouse_order t line col) 2 btn) <> Some src) /\
+  (* RELEASE while dragging: DROPs, then STOPs to the source subtree, then RELEASEs; drag over *)
+  (ty = 3 -> ds_dragging d = true ->
+     exists e7 e8 e3, e = e7 ++ e8 ++ e3 /\
+       Forall (fun x => ev_bit x = 7) e7 /\
+       Forall (fun x => ev_bit x = 8 /\
+                 exists s sb, ds_src d = Some s /\ t_find s t = Some sb /\ In (iev_win x) (t_ids sb)) e8 /\
+       Forall (fun x => ev_bit x = 3) e3 /\
+       ds_dragging d' = false) /\
+  (* DROP and STOP occur only on a RELEASE while dragging *)
+  (forall x, In x e -> ev_bit x = 7 \/ ev_bit x = 8 -> ty = 3 /\ ds_dragging d = true).
+Proof.
+  intros Hnd Hraw. cbv zeta.
+  set (d := run_ds claims t pre drag_init).
+  assert (Hpress : press_of d = last_press pre (0, 0, 0)) by (apply (run_ds_press claims t pre drag_init)).
+  assert (Hsrc : src_inv claims t d) by (apply run_ds_src_inv, src_inv_init).
+  split.
+  { intros post. rewrite run_mouse_app, run_ds_app. reflexivity. }
+  split.
+  { intros w b l c Hin. apply spec_start in Hin; [|exact Hraw].
+    destruct Hin as (Hty & Hd & Hb & Hi). split; [exact Hty|]. split; [exact Hd|].
+    destruct (mouse_order_relative t _ _ _ _ _ Hnd Hi) as (o & Ho & Hl & Hc).
+    exists o. split; [exact Ho|]. rewrite <- Hpress. unfold press_of. subst b.
+    f_equal; [f_equal|]; lia. }
+  split.
+  { intros w b l c Hin. apply spec_outside in Hin; [|exact Hraw].
+    destruct Hin as (Hty & Hb & Hd' & src & sb & o & Hs & Hf & Ho & Hi & Hne).
+    split; [exact Hty|]. split; [exact Hb|]. split; [exact Hd'|].
+    exists src, sb. split; [exact Hs|]. split.
+    { apply (src_inv_step claims t d ty btn line col Hsrc Hd' src Hs). }
+    split; [exact Hf|]. split; [eapply mouse_order_ids; exact Hi|exact Hne]. }
+  split.
+  { intros Hty Hd. subst ty. destruct (spec_release claims t d btn line col Hd) as (H1 & H2 & H3 & H4 & H5).
+    eexists _, _, _. split; [exact H1|]. split; [exact H2|]. split; [exact H3|]. split; [exact H4|exact H5]. }
+  intros x Hin Hx. unfold raw_ty in Hraw. rewrite mouse_spec_split in Hin. cbn [fst] in Hin.
+  unfold spec_pre, spec_post in Hin.
+  apply in_app_or in Hin. destruct Hin as [Hin|Hin].
+  - destruct (ty =? 1); [destruct Hin|].
+    destruct ((ty =? 2) && negb (ds_dragging d)).
+    { cbn [fst] in Hin. apply mouse_phase_ty in Hin. lia. }
+    destruct ((ty =? 3) && ds_dragging d) eqn:E3; [|destruct Hin]. lia.
+  - exfalso. apply in_app_or in Hin. destruct Hin as [Hin|Hin].
+    + apply mouse_phase_ty in Hin. lia.
+    + destruct (ty =? 2); [|destruct Hin]. destruct (ds_src (snd _)); [|destruct Hin].
+      destruct (opt_is _ _); [destruct Hin|]. apply to_source_ty in Hin. lia.
+Qed.
+
+(* ---- the model over sequences ---- *)
+(* drag states that differ only in a source nobody reads (no drag on) *)
+Definition ds_equiv (d1 d2 : dragst) : Prop :=
+  ds_dragging d1 = ds_dragging d2 /\ ds_btn d1 = ds_btn d2 /\ ds_line d1 = ds_line d2 /\
+  ds_col d1 = ds_col d2 /\ (ds_dragging d1 = true -> ds_src d1 = ds_src d2).
+
+Lemma ds_equiv_refl d : ds_equiv d d.
+Proof. repeat split. Qed.
+
+Lemma ds_equiv_trans d1 d2 d3 : ds_equiv d1 d2 -> ds_equiv d2 d3 -> ds_equiv d1 d3.
+Proof.
+  intros (A1 & A2 & A3 & A4 & A5) (B1 & B2 & B3 & B4 & B5).
+  split; [congruence|]. split; [congruence|]. split; [congruence|]. split; [congruence|].
+  intros Hd. rewrite (A5 Hd). apply B5. congruence.
+Qed.
+
+(* the spec does not read the source while no drag is on *)
+Lemma mouse_spec_equiv claims t d1 d2 ty btn line col :
+  ds_equiv d1 d2 ->
+  fst (mouse_spec claims t d1 ty btn line col) = fst (mouse_spec claims t d2 ty btn line col) /\
+  ds_equiv (snd (mouse_spec claims t d1 ty btn line col)) (snd (mouse_spec claims t d2 ty btn line col)).
+Proof.
+  destruct d1 as [dr1 b1 l1 c1 s1], d2 as [dr2 b2 l2 c2 s2]. unfold ds_equiv.
+  cbn [ds_dragging ds_btn ds_line ds_col ds_src]. intros (<- & <- & <- & <- & Hs).
+  unfold mouse_spec. cbn [ds_dragging ds_btn ds_line ds_col ds_src].
+  destruct (ty =? 1).
+  { cbn [fst snd ds_dragging ds_btn ds_line ds_col ds_src]. repeat split. exact Hs. }
+  destruct dr1; cbn [negb andb].
+  - rewrite (Hs eq_refl). rewrite !andb_false_r. split; [reflexivity|apply ds_equiv_refl].
+  - rewrite !andb_true_r, !andb_false_r. destruct (ty =? 2).
+    + split; [reflexivity|apply ds_equiv_refl].
+    + cbn [fst snd ds_dragging ds_btn ds_line ds_col ds_src]. repeat split. exact Hs.
+Qed.
+
+Lemma ds_after_equiv claims R ty btn line col :
+  ds_equiv (ds_after R ty (snd (mouse_spec claims (r_tree R) (ds_of R) ty btn line col)))
+           (snd (mouse_spec claims (r_tree R) (ds_of R) ty btn line col)).
+Proof.
+  unfold ds_after. destruct ((ty =? 3) && r_dragging R) eqn:E3; [|apply ds_equiv_refl].
+  assert (ty = 3) by lia. subst ty. assert (Hd : r_dragging R = true) by lia.
+  unfold mouse_spec. cbn [ds_of ds_dragging ds_btn ds_line ds_col ds_src]. rewrite Hd.
+  cbn [Z.eqb Pos.eqb andb negb snd ds_dragging ds_btn ds_line ds_col ds_src]. unfold ds_equiv.
+  cbn [ds_dragging ds_btn ds_line ds_col ds_src]. repeat split. intros Hf. discriminate Hf.
+Qed.
+
+Fixpoint run_term_mouse (fuel : nat) (claims : Z -> Z) (s : istate) (evs : list rawev) : istate :=
+  match evs with
+  | [] => s
+  | (ty, btn, line, col) :: r =>
+    run_term_mouse fuel claims (term_mouse_f fuel no_defects claims s ty btn line col) r
+  end.
+
+(* C14, the model against the spec over every sequence of terminal mouse events (handlers do
+   not change the tree) *)
+Theorem C14_term_mouse_seq fuel claims evs : forall s ds,
+  quiet s -> ids_unique (i_root s) -> (height (r_tree (i_root s)) < fuel)%nat ->
+  dsrc_ok (i_root s) -> ds_equiv (ds_of (i_root s)) ds ->
+  let s' := run_term_mouse fuel claims s evs in
+  i_log s' = rev (concat (run_mouse claims (r_tree (i_root s)) evs ds)) ++ i_log s /\
+  ds_equiv (ds_of (i_root s')) (run_ds claims (r_tree (i_root s)) evs ds) /\
+  r_tree (i_root s') = r_tree (i_root s) /\ quiet s'.
+Proof.
+  induction evs as [|[[[ty btn] line] col] evs IH]; intros s ds Hq Hu Hh Hok Heq; cbv zeta.
+  { cbn [run_term_mouse run_mouse run_ds concat rev app]. split; [reflexivity|]. split; [exact Heq|]. split; [reflexivity|exact Hq]. }
+  cbn [run_term_mouse run_mouse run_ds concat].
+  destruct (C14_term_mouse_f fuel claims s ty btn line col Hq Hu Hh Hok)
+    as (Hlog & _ & Hds & Htree & Horph & _ & Hq1 & Hok1).
+  set (s1 := term_mouse_f fuel no_defects claims s ty btn line col) in *.
+  destruct (mouse_spec_equiv claims (r_tree (i_root s)) (ds_of (i_root s)) ds ty btn line col Heq) as (Hfst & Hsnd).
+  assert (Hu1 : ids_unique (i_root s1)).
+  { unfold ids_unique, forest_ids, forest. rewrite Htree, Horph. exact Hu. }
+  assert (Hh1 : (height (r_tree (i_root s1)) < fuel)%nat) by (rewrite Htree; exact Hh).
+  assert (Heq1 : ds_equiv (ds_of (i_root s1)) (snd (mouse_spec claims (r_tree (i_root s)) ds ty btn line col))).
+  { rewrite Hds. eapply ds_equiv_trans; [apply ds_after_equiv|exact Hsnd]. }
+  destruct (IH s1 _ Hq1 Hu1 Hh1 Hok1 Heq1) as (Hlog' & Hds' & Htree' & Hq').
+  rewrite Htree in Hlog', Hds', Htree'.
+  split.
+  { rewrite Hlog', Hlog, Hfst. rewrite rev_app_distr, <- app_assoc. reflexivity. }
+  split; [exact Hds'|]. split; [exact Htree'|exact Hq'].
+Qed.
